@@ -40,8 +40,8 @@ func (ts *timeSeries) add(t uint64, v float64) error {
 	// timestamps above zero, or later points come out truncated.
 	//
 	// The distance between two neighbouring points is stored in 32 bits
-	// (49.7 days in milliseconds): a point further away than that from the
-	// one before it starts a block of its own.
+	// (49.7 days in milliseconds): a point half as far or further away from
+	// the one before it starts a block of its own.
 	if ts.data != nil && t-ts.prev >= 1<<31 {
 		ts.data.Finish()
 		ts.full = append(ts.full, ts.data)
